@@ -35,4 +35,14 @@ CHECKS = {
         note='Stub instructions and stub actor stand in for real instructions (the property is about the executor); bounds: <=3 '
              'instructions per phase, <=3 faults; trusted: the harness trace recorder.'),
 }
+CHECKS['C02'] = dict(
+    level='exploration',
+    technique='exhaustive enumeration of status x ending x action exit code x output x mode through the real CLI with a virtual action, against the transcribed outcome table',
+    text='Every combination of configured status, 31 ways of ending (each phase/step, each error class), action exit code '
+         '(quick: 11 boundary codes; thorough: 0..255 on the main endings), action output and the three output modes is run through '
+         'MainProgram.execute and compared with the outcome tables transcribed from the reference manual; exit code, identifier, '
+         'stream placement, --keep path and --act pass-through are all checked.',
+    note='Virtual children at the subprocess.call seam stand in for OS processes; INTERNAL_ERROR is provoked by a stub '
+         'instruction added via the public MainProgram constructor; where the manual is silent (SKIP + validation defect) both '
+         'readings are accepted.')
 NOT_APPLICABLE = {}
